@@ -545,13 +545,27 @@ def emit_write_graph(repo, tier="quick"):
         idx = [i for i, x in enumerate(parent_body) if x is rl][0]
         inits = {st.targets[0].id for st in parent_body[:idx] if isinstance(st, ast.Assign) and isinstance(st.targets[0], ast.Name)
                  and isinstance(st.value, ast.Constant) and st.value.value == ""}
-        after = {aug_like(st)[2].id for st in parent_body[idx + 1:] if isinstance(st, (ast.AugAssign, ast.Assign)) and aug_like(st) and aug_like(st)[0] == acc
-                 and aug_like(st)[1] is ast.Add and isinstance(aug_like(st)[2], ast.Name)}
+        def _sum_names(e):
+            """names of a sum a + b + ... of plain names, in order (None if it is anything else)"""
+            if isinstance(e, ast.Name):
+                return [e.id]
+            if isinstance(e, ast.BinOp) and isinstance(e.op, ast.Add):
+                l, r = _sum_names(e.left), _sum_names(e.right)
+                return None if l is None or r is None else l + r
+            return None
+        after_order = []
+        for st in parent_body[idx + 1:]:
+            al_ = aug_like(st) if isinstance(st, (ast.AugAssign, ast.Assign)) else None
+            if al_ and al_[0] == acc and al_[1] is ast.Add and _sum_names(al_[2]):
+                after_order += _sum_names(al_[2])
+        after = set(after_order)
         deferred = inits & after
+        deferred_order = [x for x in after_order if x in deferred]
     # ring unit
     rfails = {}
     rn = 0
     percent_inline = []
+    deferred_kinds = {}
     for F, NEW, SR in itertools.product((False, True), (False, True), (False, True)):
         pre = {fmt: F, ast.unparse(NEW_inner): (NEW if new_is_true_arm else not NEW), SR_text: SR}
         w = Walker(fi, acc, classify, pre=pre, extra_accs=deferred)
@@ -563,6 +577,9 @@ def emit_write_graph(repo, tier="quick"):
             while i < len(word):
                 t = word[i]
                 if t[0] == "DEFER":
+                    for t2 in word[i + 1:i + 1 + t[2]]:
+                        if t2[0] == "MARK":
+                            deferred_kinds.setdefault(t[1], set()).add(t2[1])
                     i += 1 + t[2]
                     continue
                 if t[0] == "MARK" and t[1] in ("percent", "either"):
@@ -640,6 +657,15 @@ def emit_write_graph(repo, tier="quick"):
     elif form_n:
         obs.append(ob_ok("EMIT.marker-order", fi, rl, construct="str(marker) only under marker < 10 (%d paths)" % form_n, instance="digit-below-ten",
                          reason="two-digit markers are never written in the bare digit form"))
+    # several collected strings: the ones holding %nn markers are appended after the ones holding digit markers
+    if parent_body is not None:
+        seen_percent = False
+        for name_ in deferred_order:
+            kinds_ = deferred_kinds.get(name_, set())
+            if seen_percent and "digit" in kinds_ | ({"digit"} if "either" in kinds_ else set()):
+                percent_inline.append(("order", name_))
+            if kinds_ & {"percent", "either"}:
+                seen_percent = True
     # marker order: a %nn marker is never written where a single-digit marker of the same node can follow it
     (obs.append(ob_fail("EMIT.marker-order", fi, rl, construct="a two-digit marker (%nn) is appended inside the marker loop", instance="percent-last",
                         reason="the CGsmiles reader takes every digit after a % as part of that marker: `%10` directly followed by marker 3 is read as ring 103. "
